@@ -200,10 +200,15 @@ MeltQuoteCauses(S, a) ==
   \cup (IF a.kind \in {"mpp", "mppint"} /\ ~S.mpp THEN {"mppdisabled"} ELSE {})
   \cup (IF a.kind = "mppint" THEN {"mppinternal"} ELSE {})     \* a partial payment of one of the mint's own invoices
   \cup (IF a.kind = "mpp" /\ a.msat >= a.invmsat THEN {"mppnotpartial"} ELSE {})
-  \cup (IF a.kind \in {"int", "mppint"} /\ a.target \notin DOMAIN S.mq THEN {"notarget"} ELSE {})
+  \cup (IF a.kind \in {"int", "mppint", "forged"} /\ a.target \notin DOMAIN S.mq THEN {"notarget"} ELSE {})
   \cup (IF S.lim.maxmelt > 0 /\ a.amt > S.lim.maxmelt THEN {"maxmelt"} ELSE {})
   \cup (IF a.kind = "int" /\ \E q \in DOMAIN S.lq : S.lq[q].kind = "int" /\ S.lq[q].target = a.target
         THEN {"exists"} ELSE {})
+
+\* kind "forged": somebody else's invoice carrying the payment hash of one of the mint's own invoices and another amount.
+\* Refusing it and quoting it like any outside invoice are both fine; what must not happen is shown by the melt that
+\* follows: it is an outside payment (MeltOutcomes), never a settlement of the mint quote with that hash.
+MeltQuoteDontCare(S, a) == a.kind = "forged" /\ a.target \in DOMAIN S.mq
 
 NewMeltQuote(S, q, a, r) ==
   [S EXCEPT !.lq = Upd(@, q, [amt |-> r.amt, reserve |-> r.reserve, st |-> "UNPAID", kind |-> a.kind,
